@@ -405,6 +405,16 @@ class Obl:
         self.res['backend'] = 'native execution (gcc, ASan+UBSan)'
         mo = re.search(r'VF-GRID: evaluated (\d+) failed (\d+)', text)
         if not mo:
+            san = re.search(r'ERROR: AddressSanitizer: [^\n]*|runtime error: [^\n]*|Assertion [^\n]* failed', text)
+            if san and p.returncode != 0:
+                # the real code died under the sanitizers (or on a library assert) before the grid finished: a definite violation
+                self.res['status'] = 'FAIL'
+                self.res['cbmc_properties'] = self.res['discharged'] = 0
+                self.res['failed'] = [{'property': s['id'] + '.grid', 'description': 'native grid aborted: ' + san.group(0)[:200], 'location': s['harness']}]
+                self.res['counterexample'] = {'sanitizer': san.group(0)[:300]}
+                self.res['counterexample_raw'] = {}
+                self.res['native_done'] = (True, text.strip()[-1500:])
+                return self.res
             return self.undecided('native grid produced no summary: ' + text.strip()[-300:])
         self.res['cbmc_properties'] = int(mo.group(1))
         self.res['discharged'] = int(mo.group(1)) - int(mo.group(2))
